@@ -13,5 +13,7 @@ CONSTANTS
   FIX_TRYREMOVE_LOADING = TRUE
   FIX_ADD_CLOSED = FALSE
   FIX_TRYREMOVE_ERR = TRUE
+  CloseDeadline = TRUE
+  BOUND_LOADS = FALSE
   Loose = FALSE
 INVARIANT NoneOpenAfterShutdown
